@@ -58,10 +58,10 @@ def parse_lazy(txt):
 
 def model_scan(drv, data):
     """coq/P21Scan.v scan_section on the text after DATA; -> (instances [(id, kw, refs)], abort, endsec) or None"""
-    k = data.find(b"DATA;")
-    if k < 0:
+    m_ = re.search(rb"\bDATA\s*;", data)
+    if not m_:
         return None
-    body = data[k + 5:]
+    body = data[m_.end():]
     rc, mo, me = sh([drv], input=("S " + body.hex() + "\n").encode(), timeout=120)
     insts, end = [], None
     for l in mo.split("\n"):
@@ -105,8 +105,10 @@ def scan_disagreement(ms, rc, lz):
 
 def mutate_bytes(r, data):
     """one byte-level fault in the data section: what a damaged or hand-edited file looks like"""
-    k = data.find(b"DATA;") + 5
-    e = data.rfind(b"ENDSEC;")
+    m_ = re.search(rb"\bDATA\s*;", data)
+    k = m_.end() if m_ else 4
+    me_ = list(re.finditer(rb"\bENDSEC\s*;", data))
+    e = me_[-1].start() if me_ else -1
     if e <= k + 2:
         return data, "none"
     pos = r.randrange(k, e)
@@ -161,6 +163,13 @@ C11_FIXED = [
      {"id": 3, "complex": True,
       "toks": ["(", "ASSEMBLY", "(", "'c'", ",", "(", "#1", ")", ",", "#1", ",", "$", ")", "SUB_ASSEMBLY", "(", "2", ")", ")"],
       "parts": [("ASSEMBLY", [("str", "c"), ("list", [("ref", 1)]), ("ref", 1), ("null",)]), ("SUB_ASSEMBLY", [("int", 2)])]}],
+    [_i(1, "TASK", ["'a'", ",", "(", "#1", ",", "#2", ")", ",", "#1"], [("str", "a"), ("list", [("ref", 1), ("ref", 2)]), ("ref", 1)]),
+     _i(2, "TASK", ["'b'", ",", "(", ")", ",", "$"], [("str", "b"), ("list", []), ("null",)]),
+     _i(3, "CRATE", ["'c'", ",", "(", "#4", ",", "#4", ")"], [("str", "c"), ("list", [("ref", 4), ("ref", 4)])]),
+     _i(4, "PART", ["'p'"], [("str", "p")]),
+     _i(5, "TASK", ["'c'", ",", "(", "#5", ")", ",", "#2"], [("str", "c"), ("list", [("ref", 5)]), ("ref", 2)]),
+     _i(6, "SUB_HOLDER", ["'h'", ",", "#4", ",", "1"], [("str", "h"), ("ref", 4), ("int", 1)]),
+     _i(7, "HOLDER", ["'g'", ",", "#4"], [("str", "g"), ("ref", 4)])],
     [_i(1, "PART", ["'p'"], [("str", "p")]),
      _i(2, "LABEL", ["#1", ",", "'l'"], [("ref", 1), ("str", "l")]),
      _i(3, "DOCUMENTATION", ["#1", ",", "'t'"], [("ref", 1), ("str", "t")])],
@@ -251,6 +260,22 @@ def main(tier, seed, pid):
                     res.violation("model SuperIter.v and InitIAttrs / superInvAttrIter disagree on %s: model %s, implementation %s" % (e_, model, impl),
                                   {"replay": hsup, "schema": S.name,
                                    "theorem_or_correspondence": "correspondence C11: coq/SuperIter.v init_iattrs vs superInvAttrIter.h"}, found_input=False)
+    if pid == "C10":
+        # a chain of references 100, 300 and 2000 instances long, loaded from its head (the loader follows a reference by
+        # loading the instance it names, one stack frame set per link: open finding deep_reference_chain_overflows_stack)
+        hl_ = tools[popgen.VERIF_ALL.name][1]
+        for nchain in (100, 300, 2000):
+            fch = os.path.join(wdir, "chain.p21")
+            open(fch, "w").write("ISO-10303-21;\nHEADER;\nFILE_DESCRIPTION(('d'),'2;1');\nFILE_NAME('f','t',('a'),('o'),'p','s','a');\nFILE_SCHEMA(('VERIF_ALL'));\nENDSEC;\nDATA;\n" +
+                                 "".join("#%d=NODE('n',%s,());\n" % (i_, ("#%d" % (i_ + 1)) if i_ < nchain else "$") for i_ in range(1, nchain + 1)) + "ENDSEC;\nEND-ISO-10303-21;\n")
+            rcc, outc, errc = shb([hl_, fch, "1"], timeout=120)
+            evals += 1
+            hist["chain_%d" % nchain] = rcc
+            lzc = parse_lazy(outc.decode("latin-1"))
+            if rcc != 0 or [x_ for x_, _s in lzc["load"]] != [1]:
+                res.violation("loading the head of a chain of %d references: the lazy loader ends with status %d" % (nchain, rcc),
+                              {"replay": "%s <file with #i=NODE('n',#i+1,()); for i = 1..%d> 1" % (hl_, nchain)},
+                              signature="deep_reference_chain_overflows_stack" if nchain >= 400 else None)
     fixed = C11_FIXED if pid == "C11" else []
     for k in range(-len(fixed), n):
         r = rng(seed, "%s/%d" % (pid, k))
@@ -500,7 +525,9 @@ def main(tier, seed, pid):
                                     continue      # lazyRefs does not look into a SELECT (open finding select_typed_inverted_attribute)
                                 rs = refs_of(y["parts"][0][1][j])
                                 if rs:
-                                    attrs.append("%d.%d=%s" % (tid[a[0]], j + 1 if not (a[0] == E and a[1] == attr) else 999,
+                                    # the inverted attribute of E, declared by E or inherited by it, is attribute 999 of E
+                                    inverted_ = a[1] == attr and S.isa(E, a[0]) and S.isa(e2, E)
+                                    attrs.append("%d.%d=%s" % (tid[E] if inverted_ else tid[a[0]], 999 if inverted_ else j + 1,
                                                                ",".join(str(z) for z in rs)))
                             pops.append("%d:%d:%s" % (y["id"], tid[e2], "/".join(attrs)))
                         req = "V %d %d 999 ; %s ; %s" % (x, tid[E], isa_pairs, " ".join(pops))
